@@ -254,6 +254,10 @@ Q2Tags == {i \in R : Accepted(i) /\ IsPubReq(i) /\ reqs[i].q = 2}
 \* delivered holds tags of messages whose Submit may not have been recorded yet: quantify over the log
 \* the broker kept the session on every re-connection (the premise of C02 and of delivery order)
 SessionKept == \A g \in 1..Len(conns) : (conns[g].accepted /\ \E h \in 1..(g - 1) : conns[h].accepted) => conns[g].sp
+\* exactly-once across reconnects rests on the session: the client asks the broker to discard it (CleanSession=1 in
+\* CONNECT) only if the application configured that -- not on its own, e.g. on re-connections (seeded change c02i)
+C02_SessionNotDiscardedByClient ==
+  (fresh = "Write" /\ wire[NW].p = "CONNECT" /\ "cleanSession" \in DOMAIN Cfg) => wire[NW].clean = Cfg.cleanSession
 C02_NoDupQoS2 == (fresh = "Write" /\ SessionKept) =>
   \A t \in Range(wire[NW].deliv) : (\E j \in W : IsPub(j) /\ wire[j].tag = t /\ wire[j].qos = 2) => Count(delivered, t) <= 1
 C02_DeliveredOnce == (Drained /\ SessionKept) => \A t \in Q2Tags : Count(delivered, t) = 1
@@ -451,7 +455,7 @@ C18_NoStall == (fresh = "Idle" /\ Cfg.respTimeout /\ Feasible /\ Dropped # {}) =
 
 Obs == [
   C01_StableDone |-> C01_StableDone, C01_Progress |-> C01_Progress,
-  C02_NoDupQoS2 |-> C02_NoDupQoS2, C02_DeliveredOnce |-> C02_DeliveredOnce, C02_SilentAfterComp |-> C02_SilentAfterComp, C02_ExchangeCompletes |-> C02_ExchangeCompletes,
+  C02_NoDupQoS2 |-> C02_NoDupQoS2, C02_DeliveredOnce |-> C02_DeliveredOnce, C02_SilentAfterComp |-> C02_SilentAfterComp, C02_ExchangeCompletes |-> C02_ExchangeCompletes, C02_SessionNotDiscardedByClient |-> C02_SessionNotDiscardedByClient,
   C03_OrderPerConn |-> C03_OrderPerConn, C03_FirstTxOrder |-> C03_FirstTxOrder, C03_FirstDeliveryOrder |-> C03_FirstDeliveryOrder,
   C08_StableSubs |-> C08_StableSubs, C08_NoResubUnlessDue |-> C08_NoResubUnlessDue,
   C12_DupFlag |-> C12_DupFlag, C12_SameOnRetx |-> C12_SameOnRetx, C12_NoPubAfterRel |-> C12_NoPubAfterRel,
